@@ -547,4 +547,46 @@ def rule_bounded_recursion(ctx):
     r.floor(2)
 
 
-RULES = [rule_store_after_validate, rule_fail_warns, rule_no_silent_line, rule_no_throw, rule_unsigned_bounded, rule_nl_max_guard, rule_bounded_recursion]
+def rule_diagnostic_names_file(ctx):
+    """a diagnostic "names the file, line and option": the file is the one load_option_file() is reading - for a line of an
+    included file not the top-level config (found on the pinned tree; repaired)"""
+    db = ctx.db
+    r = ctx.rule("diagnostic-names-file", "both OptionWarning constructors print a file name that is, or is derived from, state which "
+                 "load_option_file() (or an object it constructs) sets for the file it reads, together with cpd.line_number")
+    lo = db.fn("uncrustify::load_option_file", file=OPT)
+    written = set()
+    from .c11 import gstate
+    gs = gstate(db)
+    fs = [lo] + [db.funcs[t] for n in lo.nodes.values() if n["k"] in ("ctor", "decl", "call") for t in gs.call_targets(lo, n) if t in db.funcs and db.funcs[t].file == OPT and db.funcs[t].d.get("cls")]
+    for g in fs:
+        for n in g.nodes.values():
+            if n["k"] == "asg":
+                t = g.nodes.get(n["a"][0])
+                if t is not None and t["k"] == "ref" and t.get("d") in ("gv", "sv"):
+                    written.add(t["n"])
+    ctors = [g for g in db.funcs.values() if g.qn == "uncrustify::OptionWarning::OptionWarning"]
+    r.require(len(ctors) >= 2, "OptionWarning constructors not found")
+    for g in ctors:
+        r.seen()
+        pr = [n for n in g.all_nodes() if n["k"] == "call" and n.get("c") == "fprintf"]
+        r.require(pr, "OptionWarning constructor prints nothing")
+        takes_name = any(p["t"].replace("const ", "").strip() == "char *" for p in g.d.get("params", ()))
+        r.check(any("cpd.line_number" in expr_str(g, n["i"]) for n in pr), "OptionWarning/prints-line/%s" % ("filename" if takes_name else "option"), db.loc(g, pr[0]),
+                "the diagnostic does not print cpd.line_number")
+        for n in pr:
+            txt = expr_str(g, n["i"])
+            if "%s" not in txt:
+                continue
+            if takes_name:
+                pname = [p["n"] for p in g.d["params"] if p["t"].replace("const ", "").strip() == "char *"][0]
+                r.check(pname in txt, "OptionWarning(filename)/prints-its-argument", db.loc(g, n), "the file-name constructor does not print its argument")
+            else:
+                refs = set(x["n"] for x in walk(g, n["i"]) if x["k"] == "ref" and x.get("d") in ("gv", "sv"))
+                r.check(bool(refs & written), "OptionWarning(option)/prints-current-file", db.loc(g, n),
+                        "the diagnostic for a bad option value prints a file name that load_option_file() does not maintain (reads %s; maintained: %s): "
+                        "a line of an included file is reported under the top-level file" % (sorted(refs) or "cpd.filename only", sorted(written) or "nothing"))
+
+    r.floor(3)
+
+
+RULES = [rule_store_after_validate, rule_fail_warns, rule_no_silent_line, rule_no_throw, rule_unsigned_bounded, rule_nl_max_guard, rule_bounded_recursion, rule_diagnostic_names_file]
